@@ -2,8 +2,8 @@
 # tools/confirm_seed.sh <PID> <a|b> : confirm a seeded change in a scratch worktree of /repo HEAD
 # (demo passes clean, fails with the patch, suite still 503 passed). Result -> /tmp/seed_out/<PID>/confirm_<x>.json
 PID=$1; X=$2
-SRC=/tmp/seed_out/$PID
-WT=/tmp/cw/${PID}_$X
+SRC=${SEED_SRC:-/tmp/seed_out}/$PID
+WT=/tmp/cw/${PID}_${X}_$$
 mkdir -p /tmp/cw
 git -C /repo worktree remove --force $WT 2>/dev/null
 git -C /repo worktree add -q --detach $WT HEAD || exit 9
